@@ -697,6 +697,10 @@ func Forward(v ssa.Value) ssa.Value {
 					}
 				}
 			case ssa.Instruction:
+				// handed to an encoder that only reads it (directly or boxed)
+				if readOnlyUse(ref) {
+					continue
+				}
 				// any other use of the struct pointer (call argument, store, closure
 				// binding, interface conversion) before the load lets it escape
 				if in, ok := ref.(ssa.Instruction); ok {
@@ -729,6 +733,38 @@ func CheckedOrGuardedBy(x ssa.Instruction, c *ssa.Call) bool {
 					return true
 				}
 			}
+		}
+	}
+	return false
+}
+
+// readOnlyEncoders only read what they are given.
+var readOnlyEncoders = map[string]bool{
+	"gopkg.in/mgo.v2/bson.Marshal": true, "encoding/json.Marshal": true, "encoding/xml.Marshal": true,
+	"encoding/json.MarshalIndent": true,
+}
+
+// readOnlyUse: the instruction passes the value (possibly boxed into an
+// interface) to a function that only reads it.
+func readOnlyUse(ref ssa.Instruction) bool {
+	switch x := ref.(type) {
+	case *ssa.MakeInterface:
+		if x.Referrers() == nil {
+			return false
+		}
+		for _, u := range *x.Referrers() {
+			ui, ok := u.(ssa.Instruction)
+			if !ok || !readOnlyUse(ui) {
+				if _, isDbg := u.(*ssa.DebugRef); isDbg {
+					continue
+				}
+				return false
+			}
+		}
+		return true
+	case ssa.CallInstruction:
+		if f := x.Common().StaticCallee(); f != nil {
+			return readOnlyEncoders[f.String()]
 		}
 	}
 	return false
